@@ -125,4 +125,20 @@ def estimateUsingCParams (c : CPar) (stream : Bool) : Nat :=
   if rowSupported c.strategy then max (estimate (rpOfCParams c false stream)) (estimate (rpOfCParams c true stream))
   else estimate (rpOfCParams c false stream)
 
+/-! ### the estimates by compression level -/
+
+def rowAt (tier level : Nat) : CPar := (adjRows.getD tier []).getD level ⟨0, 0, 0, 0, 0, 0, 0⟩
+
+/-- ZSTD_estimateCCtxSize_internal(level): the largest need over the four source-size tiers -/
+def estLevelInternal (level : Nat) : Nat :=
+  (List.range 4).foldl (fun acc t => max acc (estimateUsingCParams (rowAt t level) false)) 0
+
+/-- ZSTD_estimateCCtxSize(L) for L ≥ 1: the largest need over the levels 1..L -/
+def estLevel (L : Nat) : Nat :=
+  (List.range L).foldl (fun acc k => max acc (estLevelInternal (k + 1))) 0
+
+/-- ZSTD_estimateCStreamSize(L) for L ≥ 1 (unknown-size tier only) -/
+def estStreamLevel (L : Nat) : Nat :=
+  (List.range L).foldl (fun acc k => max acc (estimateUsingCParams (rowAt 3 (k + 1)) true)) 0
+
 end ZstdVerif.Estimate
